@@ -18,6 +18,11 @@ func init() {
 const diagPkg = "core/validators/diagnostics"
 
 func checkC10(c *Ctx, r *Report) {
+	// "is or embeds error": a struct embeds a type only through an embedded (anonymous) field -
+	// a named field of that type is not an embedding
+	defer ruleTrueOnlyUnder(c, r, "C10.d", "gast.DoesStructEmbedType", "embedded-field-only",
+		func(a *sliceAtoms, _ ssa.Value) bool { return a.Calls["(*go/types.Var).Embedded"] },
+		"the matching field is an embedded one (types.Var.Embedded)")
 	defer func() { ruleRegexInventory(c, r, "C10.c", "core/validators", "definitions") }()
 	w := c.W
 	r.NotDecided = append(r.NotDecided, "completeness: that a route satisfying the rules is never rejected (needs the semantics of every predicate on every input)",
